@@ -392,6 +392,46 @@ pub struct World {
     pub datums: Vec<Pd>,
     #[serde(default)]
     pub utxos: Vec<Utxo>,
+    /// native scripts reach the library through `NativeScript::from_bytes`, from bytes in which every
+    /// nested script list carries the set tag 258 (the decoder accepts and ignores it): equal scripts, same hashes
+    #[serde(default)]
+    pub decoded_scripts: bool,
+}
+
+/// a native script re-emitted with tag 258 in front of every nested script list
+pub fn tag_nested_script_lists(b: &[u8]) -> Option<Vec<u8>> {
+    fn go(n: &crate::cbor::Node, whole: &[u8], out: &mut Vec<u8>) -> Option<()> {
+        let a = n.as_array()?;
+        let t = a.get(0)?.as_u64()?;
+        let list_at = match t {
+            1 | 2 => Some(1),
+            3 => Some(2),
+            _ => None,
+        };
+        match list_at {
+            None => out.extend_from_slice(n.span(whole)),
+            Some(ix) => {
+                crate::cbor::w_array(out, a.len() as u64);
+                for (i, it) in a.iter().enumerate() {
+                    if i == ix {
+                        let items = it.as_array()?;
+                        crate::cbor::w_tag(out, 258);
+                        crate::cbor::w_array(out, items.len() as u64);
+                        for s in items {
+                            go(s, whole, out)?;
+                        }
+                    } else {
+                        out.extend_from_slice(it.span(whole));
+                    }
+                }
+            }
+        }
+        Some(())
+    }
+    let n = crate::cbor::parse(b).ok()?;
+    let mut out = vec![];
+    go(&n, b, &mut out)?;
+    Some(out)
 }
 
 pub fn tx_hash_bytes(tx: u32) -> [u8; 32] {
@@ -406,7 +446,15 @@ pub fn raw_policy(p: u16) -> [u8; 28] {
 
 impl World {
     pub fn script_val(&self, id: ScriptId) -> ScriptVal {
-        self.scripts[id as usize].to_val()
+        let v = self.scripts[id as usize].to_val();
+        if self.decoded_scripts {
+            if let ScriptVal::Native(n) = &v {
+                if let Some(n2) = tag_nested_script_lists(&n.to_bytes()).and_then(|b| csl::NativeScript::from_bytes(b).ok()) {
+                    return ScriptVal::Native(n2);
+                }
+            }
+        }
+        v
     }
     pub fn script_hash(&self, id: ScriptId) -> csl::ScriptHash {
         self.script_val(id).hash()
